@@ -467,7 +467,10 @@ _ADDR = re.compile(r" at 0x[0-9a-f]+")
 
 def _site_outcome(vars_, site):
     RecEnv.seen = set()
-    req = make_request(vars_, env_cls=RecEnv)
+    try:
+        req = make_request(vars_, env_cls=RecEnv)
+    except Exception as e:  # noqa: BLE001 - reported by the enumeration; here it only means "depends"
+        return "EXC-init " + type(e).__name__, set(vars_), set()
     at_init = set(RecEnv.seen)
     RecEnv.seen = set()
     try:
